@@ -82,19 +82,20 @@ def parse_jobs():
         Job("parse", "H_exprCtx", "0..21,0..2,false", workers=16, maxsteps=300000),
         Job("parse", "H_parseCtx", "0..77,2,false", workers=16, maxsteps=300000, note="k=2"),
         Job("parse", "H_prefix", "0..738,0", workers=16, maxsteps=600000, note="every prefix"),
+        Job("parse", "H_linear", "0..21", workers=16, maxsteps=80000000, note="steps for 2k vs k repeated units"),
         Job("parse", "H_prefix", "0..738,1", tier="thorough", workers=16, maxsteps=600000, note="every prefix + 1 symbolic byte"),
         Job("parse", "H_parseCtx", "0..77,3,true", tier="thorough", workers=16, maxsteps=300000, note="k=3 ascii"),
         Job("parse", "H_exprCtx", "0..21,3,true", tier="thorough", workers=16, maxsteps=300000, note="k=3 ascii"),
     ]
 
-PARSE_BOUNDS_Q = "parse.SoyFile on 78 concrete lexer/parser contexts (incl. every quoted attribute value, empty values included) followed by k <= 2 symbolic bytes (all 256 values); parse.Expr on 22 contexts with k <= 2; every prefix of a 738-byte valid file using every command; step bound 300000 (600000 for prefixes) SSA instructions per path acts as the unwinding assertion"
+PARSE_BOUNDS_Q = "parse.SoyFile on 78 concrete lexer/parser contexts (incl. every quoted attribute value, empty values included) followed by k <= 2 symbolic bytes (all 256 values); a doubling test of the step count on 22 repeating units (400 vs 800 repetitions); parse.Expr on 22 contexts with k <= 2; every prefix of a 738-byte valid file using every command; step bound 300000 (600000 for prefixes) SSA instructions per path acts as the unwinding assertion"
 PARSE_BOUNDS_T = PARSE_BOUNDS_Q + "; thorough adds k = 3 over ASCII for all contexts and every prefix + 1 symbolic byte"
 
 PROPS["C05"] = {
     "jobs": parse_jobs(),
     "viol_filter": r"^(C05:|step bound|call depth|main goroutine blocked|uncaught panic|harness:)",
     "bounds_quick": PARSE_BOUNDS_Q, "bounds_thorough": PARSE_BOUNDS_T,
-    "outside": "inputs whose symbolic part is longer than 3 bytes; token-level duplications/swaps of long files; 'time proportional to input' is claimed only as: no explored path exceeds the step bound",
+    "outside": "inputs whose symbolic part is longer than 3 bytes; token-level duplications/swaps of long files; 'time proportional to input' is claimed as: no explored path exceeds the step bound, and for 22 repeating units the steps for 800 units are at most 2.33x the steps for 400 (library calls are charged by a cost model, not measured); beyond that: no explored path exceeds the step bound",
     "assumptions": ["a path exceeding the step bound is reported as a candidate hang and confirmed by running the real parser on the solver's input under a wall clock"],
     "level_text": "Bounded symbolic model checking of the real lexer goroutine + parser under the engine's scheduler: for each context every continuation of k arbitrary bytes is covered path by path; non-termination (step bound), deadlock of the main goroutine and escaping runtime panics are engine verdicts, each confirmed natively.",
     "level_note": "Bounds: contexts x k symbolic bytes (evidence.bounds). Trusted: go/ssa, gosym incl. its cooperative scheduler (exact for one producer/one consumer), z3, stdlib models.",
@@ -119,13 +120,13 @@ PROPS["C10"] = {
         Job("soymsg", "H_names", "0..13,-1..3", workers=16),
         Job(".", "H_compileRace", "0,0", workers=2, note="ids of two concurrent compilations"),
         Job(".", "H_compileRace", "0,7", workers=2, note="ids of two concurrent compilations"),
-        Job("soymsg", "H_baseName", "1..4", workers=16, maxfan=16),
+        Job("soymsg", "H_baseName", "1..6", workers=16, maxfan=16),
         Job("soymsg", "H_tagName", "1..3,0..3", workers=16, maxfan=16),
         Job("soyhtml", "H_msgPositions", "0..13", workers=8),
         Job("soymsg", "H_fp", "26..40", tier="thorough", workers=8, qtimeout=3000, allow_inconclusive=True, note="3 blocks"),
         Job("soymsg", "H_id", "5..13,0..3", tier="thorough", workers=8, qtimeout=3000, allow_inconclusive=True, note="longer text"),
     ],
-    "bounds_quick": "fingerprint vs the official algorithm for every byte string of each length 0..25 (0, 1 and 2 twelve-byte blocks, every tail length); calcID with symbolic text (<= 4 bytes), description (2 bytes, two independent copies) and meaning (<= 2 bytes); the id of 8 structured messages (placeholders, html tags, plural) with a symbolic meaning (<= 2 bytes) and description against the official id of their placeholder string; base-name derivation (toUpperUnderscore and genBasePlaceholderName) for every identifier of <= 4 characters over {a,b,A,B,1,2,_} against a regexp-free reference; the base name of html tags (<n>, </n>, <n/>, <n x=..>) whose name is <= 3 characters over {a,b,i,p,Z,1,-,:,_,space} (pretty names, names ending at the first non-alphanumeric); the id/placeholder pass (parsepasses.ProcessMessages) on a message placed in 14 containers (if/elseif/else, switch cases, foreach/ifempty, for, let content, call param content - also nested -, log) against the same message at top level; message ids and placeholder names computed by two compilations running at once (happens-before check of every heap access, both run-queue disciplines) equal those computed alone; placeholder naming for a dictionary of 14 messages (incl. one expression under different directives / directive arguments / access styles and link tags differing in an attribute) under an arbitrary iteration order of each of the 4 map loops of setPlaceholderNames, one loop at a time",
+    "bounds_quick": "fingerprint vs the official algorithm for every byte string of each length 0..25 (0, 1 and 2 twelve-byte blocks, every tail length); calcID with symbolic text (<= 4 bytes), description (2 bytes, two independent copies) and meaning (<= 2 bytes); the id of 8 structured messages (placeholders, html tags, plural) with a symbolic meaning (<= 2 bytes) and description against the official id of their placeholder string; base-name derivation (toUpperUnderscore and genBasePlaceholderName) for every identifier of <= 6 characters over the whole identifier alphabet (symbolic bytes; the five regular expressions run through the engine's regexp matcher) against a regexp-free reference; the base name of html tags (<n>, </n>, <n/>, <n x=..>) whose name is <= 3 characters over {a,b,i,p,Z,1,-,:,_,space} (pretty names, names ending at the first non-alphanumeric); the id/placeholder pass (parsepasses.ProcessMessages) on a message placed in 14 containers (if/elseif/else, switch cases, foreach/ifempty, for, let content, call param content - also nested -, log) against the same message at top level; message ids and placeholder names computed by two compilations running at once (happens-before check of every heap access, both run-queue disciplines) equal those computed alone; placeholder naming for a dictionary of 14 messages (incl. one expression under different directives / directive arguments / access styles and link tags differing in an attribute) under an arbitrary iteration order of each of the 4 map loops of setPlaceholderNames, one loop at a time",
     "bounds_thorough": "fingerprint lengths up to 40; text up to 13 bytes, meaning up to 3",
     "outside": "strings longer than the bound; collision-freeness (a 63-bit id cannot be injective); the branch hi==0 && lo in {0,1} is a hash pre-image question: explored under a 3 s query timeout and counted as inconclusive when the solver gives up; several map loops permuted at once (only one loop's order influences the result, shown per loop); across-process stability follows from calcID reading nothing but the node",
     "assumptions": ["refFingerprint/refID/refNames (harness) are transliterations of the official SoyMsgIdComputer and MsgNode.genSubstUnitInfo; refID is validated on every run against the official ids pinned in soy's tests"],
@@ -319,7 +320,7 @@ PROPS["C19"] = {
 # ---------------------------------------------------------------- C16
 PROPS["C16"] = {
     "jobs": [
-        Job("soyhtml", "H_escapeUri", "0..2", workers=8),
+        Job("soyhtml", "H_escapeUri", "0..3", workers=8),
         Job("soyhtml", "H_escapeJs", "0..2,0..4", workers=8),
         Job("soyhtml", "H_truncate", "0..3,0..5,0..2", workers=16),
         Job("soyhtml", "H_truncate", "5,4,0..1", workers=16, note="ellipsis with multi-byte characters"),
@@ -333,13 +334,13 @@ PROPS["C16"] = {
         Job("soyjs", "H_jsChain", "0..7,true", workers=4, note="order of the JavaScript counterparts"),
         Job("soyhtml", "H_json", "0..3,0..2", workers=16),
         Job("soyhtml", "H_json", "0,3", tier="thorough", workers=16),
-        Job("soyhtml", "H_escapeUri", "3", tier="thorough", workers=16),
+        Job("soyhtml", "H_escapeUri", "4", tier="thorough", workers=16),
         Job("soyhtml", "H_escapeJs", "3,0..4", tier="thorough", workers=16),
         Job("soyhtml", "H_truncate", "4..5,0..8,0..2", tier="thorough", workers=16),
         Job("soyhtml", "H_newlineToBr", "5", tier="thorough", workers=16, maxfan=300),
     ],
-    "bounds_quick": "escapeUri: every string of <= 2 bytes (all 256 values); escapeJsString: <= 2 ASCII bytes (incl. controls) optionally with one of U+00E9/U+2028/U+2029/U+FEFF; truncate: valid UTF-8 strings of <= 3 bytes, limit 0..5, ellipsis default/true/false, and 5-byte strings with limit 4 and the ellipsis on; insertWordBreaks:k (k 1..3) on <= 3 ASCII bytes; changeNewlineToBr on every string of <= 4 bytes other than NUL (the regexp replacement `\\r\\n|\\r|\\n` is summarised by a Go model validated natively against package regexp); 5 chains of two directives through parser and renderer; every encoding directive through the print command on strings of 0..2 bytes (the print path adds or drops nothing), and with different arguments on one value inside a message rendered from the source and through an identity catalogue; the JavaScript emitted for 8 directive chains applies the JavaScript counterparts left to right with their own arguments, autoescaping last; |json on strings of <= 2 bytes of valid UTF-8 (all byte values), alone and inside lists/maps with booleans, null, undefined and small ints, against a reference JSON parser (encoding/json's string encoding is a Go model validated natively against json.Marshal; structure and key order are produced as encoding/json documents them)",
-    "bounds_thorough": "escapeUri 3 bytes; escapeJsString 3 bytes; truncate strings of <= 5 bytes with limits 0..8; changeNewlineToBr length 5",
+    "bounds_quick": "escapeUri: every string of <= 3 bytes (all 256 values); escapeJsString: <= 2 ASCII bytes (incl. controls) optionally with one of U+00E9/U+2028/U+2029/U+FEFF; truncate: valid UTF-8 strings of <= 3 bytes, limit 0..5, ellipsis default/true/false, and 5-byte strings with limit 4 and the ellipsis on; insertWordBreaks:k (k 1..3) on <= 3 ASCII bytes; changeNewlineToBr on every string of <= 4 bytes other than NUL (the regexp replacement `\\r\\n|\\r|\\n` is summarised by a Go model validated natively against package regexp); 5 chains of two directives through parser and renderer; every encoding directive through the print command on strings of 0..2 bytes (the print path adds or drops nothing), and with different arguments on one value inside a message rendered from the source and through an identity catalogue; the JavaScript emitted for 8 directive chains applies the JavaScript counterparts left to right with their own arguments, autoescaping last; |json on strings of <= 2 bytes of valid UTF-8 (all byte values), alone and inside lists/maps with booleans, null, undefined and small ints, against a reference JSON parser (encoding/json's string encoding is a Go model validated natively against json.Marshal; structure and key order are produced as encoding/json documents them)",
+    "bounds_thorough": "escapeUri 4 bytes; escapeJsString 3 bytes; truncate strings of <= 5 bytes with limits 0..8; changeNewlineToBr length 5",
     "outside": "|json of floats and of values outside the listed shapes (encoding/json itself works through reflection and is replaced by a model for strings plus the documented structure rules); the JavaScript counterparts in soyutils.js (no JavaScript semantics in the engine); bidi directives (unimplemented in soy); longer strings",
     "assumptions": ["refJSString (harness): reference decoder of ECMAScript string literal bodies, rejecting raw quotes, line terminators, control characters and < > &"],
     "level_text": "Bounded symbolic model checking of the Go directive implementations with the value's bytes symbolic; decodability is checked by independent reference decoders executed by the same engine. Only the Go half of the property is claimed.",
